@@ -180,6 +180,21 @@ CLAIMED = {
                 "(needs run-time duplicate-freeness).",
         "design": "4/C17",
     },
+    "C18": {
+        "rules": "R-INIT (field-sensitive definite initialisation), R-NOPAD, R-MUSTCALL(sort first), R-SIB",
+        "text": "Definite-initialisation analysis over all seven serialisation paths and the parsers: every value handed to "
+                "Writer::Write (found by the same resolved call-graph walk as R-SEQ) is a fully defined object: locals have "
+                "every leaf field assigned on every path (dominating stores, reads, aggregate or per-constructor "
+                "initialisation), temporaries are fully defined by the constructor actually called, factory results are fully "
+                "defined returns, and members of user-constructible serialisable classes (Map, ArtFile) are defined by every "
+                "constructor; every function returning a record by value returns a fully defined object; no serialised record "
+                "has padding bits; CLM names are zero-filled; every VOL index entry gets its offset; inputs are sorted by the "
+                "checked comparator before anything is derived from them. 'No output byte comes from indeterminate memory' is "
+                "exactly a definite-initialisation fact, which no finite set of runs can establish.",
+        "note": "Declined: path-spelling independence (std::filesystem), the cross-process comparison itself, caller-supplied "
+                "container elements, the copy buffer of Writer::Write(Reader&) (shape in C14).",
+        "design": "4/C18",
+    },
     "C19": {
         "rules": "R-SIB (comparator / key-function / mirror-normalisation shapes), de Bruijn table check",
         "text": "Shape analysis on clang's resolved AST of the helpers whose laws callers rely on: the case-insensitive "
